@@ -80,7 +80,24 @@ add('neg_const_global', 'let gm: int = -1', '(println (- gm))', '1\n')
 add('assert_stmt', '', 'assert (== 1 1)\n(println "ok")', 'ok\n')
 add('int_overflow_wrap', 'fn addw(a: int, b: int) -> int { return (+ a b) }\nshadow addw { assert true }', '(println (addw 9223372036854775807 1))', '-9223372036854775808\n')
 add('void_bare_return', 'fn vf(p: int) -> void {\n if (> p 1) {\n  (println "big")\n } else {\n  return\n }\n}\nshadow vf { assert true }', '(vf 5)\n(println "after1")\n(vf 0)\n(println "after2")', 'big\nafter1\nafter2\n')
+add('self_assign_cond', '', 'let mut s: string = (+ "a" "b")\nset s (cond (true s) (else "x"))\nlet k: string = (int_to_string 12345)\n(println s)', 'ab\n')
+add('aggregate_string_alias', 'union UA {\n VA { a0: string },\n VB { a0: int }\n}', 'let mut v: string = ""\nlet mut c: int = 0\nwhile (< c 2) {\n set v (+ v (int_to_string c))\n set c (+ c 1)\n}\nlet u: UA = UA.VA { a0: v }\nset v "hello"\nlet mut w: string = "a"\nmatch u {\n VA(m) => { (println m.a0) },\n VB(m2) => { (println "b") }\n}\n(println v)', '01\nhello\n')
+add('string_field_direct', 'struct PS { a: int, n: string }\nfn sf(p: PS) -> string {\n let mut v: string = ""\n let mut c: int = 0\n while (< c 3) {\n  set c (+ c 1)\n  set v p.n\n  let mut k: int = (+ (string_to_int (int_to_string c)) 617)\n }\n return v\n}\nshadow sf { assert true }', '(println (sf PS { a: 1, n: "nano" }))', 'nano\n')
+add('import_call_in_shadow', 'from "census_m1.nano" import imp_seven\nfn via() -> int {\n return (imp_seven)\n}\nshadow via { assert (== (via) 7) }', '(println (via))', 'in-imp\n7\n')
 add('import_fnvalue', '', '(println "skip")', 'skip\n')
+
+
+EXTRA_FILES = {
+    'import_call_in_shadow': {"census_m1.nano": 'pub fn imp_seven() -> int {\n    (println "in-imp")\n    return 7\n}\nshadow imp_seven { assert (== (imp_seven) 7) }\n'},
+}
+
+
+def files(name):
+    """all files of a census program: {'main.nano': ..., extra modules...}"""
+    text, _ = program(name)
+    out = {"main.nano": text}
+    out.update(EXTRA_FILES.get(name, {}))
+    return out
 
 
 def program(name):
